@@ -145,22 +145,26 @@ StoryMsgs(cls, K) ==
     [] cls = "EAStorySwap" ->
          { Msg(cls, RefAbsent, RefAbsent, ids, <<>>) : ids \in SeqsFromTo(SRefs(K), 2, 2) }
 
-(* item-level messages addressing story sid (other stories, an unknown   *)
-(* and a blank story reference are tried with the same item references)  *)
+(* item-level messages addressing story sid.  The full enumeration of ID  *)
+(* lists is done for the addressed story; other stories, an unknown and a *)
+(* blank story reference are tried with short lists only (the story       *)
+(* lookup fails or hits another story before the list matters).           *)
 ItemMsgs(cls, K, sid) ==
   LET storyRefs == SRefs(K)
       S == K[Idx(K, "story", sid)].kids
+      Lim(s, n) == IF s = RefId(sid) THEN n ELSE 1
   IN
   CASE cls \in {"ItemDelete", "EAItemDelete"} ->
-         { Msg(cls, s, RefAbsent, ids, <<>>) : s \in storyRefs, ids \in SeqsFromTo(IRefs(S), 1, MaxSrc) }
+         UNION { { Msg(cls, s, RefAbsent, ids, <<>>) : ids \in SeqsFromTo(IRefs(S), 1, Lim(s, MaxSrc)) }
+                   : s \in storyRefs }
     [] cls \in {"ItemInsert", "EAItemInsert"} ->
          { Msg(cls, s, t, <<>>, c) : s \in storyRefs, t \in IRefs(S), c \in CarriedItems(S) }
     [] cls = "ItemMoveMultiple" ->
-         { Msg(cls, s, RefAbsent, ids, <<>>) :
-             s \in storyRefs \cup {RefAbsent}, ids \in SeqsFromTo(IRefs(S), 1, MaxSrc + 1) }
+         UNION { { Msg(cls, s, RefAbsent, ids, <<>>) : ids \in SeqsFromTo(IRefs(S), 1, Lim(s, MaxSrc) + 1) }
+                   : s \in storyRefs \cup {RefAbsent} }
     [] cls = "EAItemMove" ->
-         { Msg(cls, s, t, ids, <<>>) :
-             s \in storyRefs, t \in IRefs(S), ids \in SeqsFromTo(IRefs(S), 1, MaxSrc) }
+         UNION { { Msg(cls, s, t, ids, <<>>) : t \in IRefs(S), ids \in SeqsFromTo(IRefs(S), 1, Lim(s, MaxSrc)) }
+                   : s \in storyRefs }
     [] cls \in {"ItemReplace", "EAItemReplace"} ->
          { Msg(cls, s, t, <<>>, c) : s \in storyRefs, t \in IRefs(S), c \in CarriedItems(S) \cup {<<>>} }
     [] cls = "EAItemSwap" ->
